@@ -17,6 +17,7 @@
 From stdpp Require Import gmap.
 From Coq Require Import NArith.
 From Synnax Require Import Aspen.Pledge Aspen.PledgeQuorum Aspen.PledgeProofs Aspen.PledgeWitness.
+From Synnax Require Import Monitors.Mon_C11 Monitors.Mon_C11_Sound.
 Local Open Scope N_scope.
 
 (* (1) A run decides for a key only with a full quorum: the jurors it consulted in its
@@ -162,6 +163,26 @@ Theorem C11_unique_refuted :
     result_of s p1 = Some (k, c) /\ result_of s p2 = Some (k, c).
 Proof. exact unique_refuted. Qed.
 Print Assumptions C11_unique_refuted.
+
+(* (10) The monitor that judges the implementation's event log (Monitors/Mon_C11.v:
+   full-quorum approval, cluster key, no key handed out twice, no key an approving juror
+   knew, no phantom response) agrees with the model: on every event sequence the model
+   accepts, the only objection it can raise is "same key from disjoint approving quorums"
+   (the signature of the finding), and it raises none when the candidate snapshots of the
+   sequence pairwise satisfy the intersection guard. Hence on a run of the real code with
+   mismatches = 0 a monitor rejection is exactly the known finding, and the monitor is
+   never stricter than the model. *)
+Theorem C11_monitor_sound : forall c : case_t,
+  accepts c = true -> Forall (fun k => k = k_dup_disjoint) (viol_kinds c).
+Proof. exact monitor_sound. Qed.
+Print Assumptions C11_monitor_sound.
+
+Theorem C11_monitor_sound_under_guard : forall c : case_t,
+  accepts c = true ->
+  (forall v1 v2, v1 ∈ snaps c.2 -> v2 ∈ snaps c.2 -> compat v1 v2) ->
+  ok_C11 c = true.
+Proof. exact monitor_sound_guarded. Qed.
+Print Assumptions C11_monitor_sound_under_guard.
 
 (* Non-vacuity: what the real code did with two concurrent pledges, a coordinator that
    is one member behind (member 1 does not know member 4), an unreachable juror and two
